@@ -112,6 +112,10 @@ func (c10) Gen(seed uint64, tier string) *Scenario {
 			ext = "txt"
 		}
 		t := c10Table{Name: fmt.Sprintf("t%d.%s", i, ext), Format: f, Rows: rows}
+		if r.Bool(0.1) {
+			// addressed by a relative path into a sub-directory
+			t.Name = "sub/" + t.Name
+		}
 		m.Tables = append(m.Tables, t)
 		if r.Bool(0.12) {
 			// the table path is a symbolic link to the data file
@@ -141,6 +145,10 @@ func (c10) Gen(seed uint64, tier string) *Scenario {
 			default:
 				m.Stmts = append(m.Stmts, fmt.Sprintf("DELETE FROM %s WHERE id %% 3 = 1;", q), fmt.Sprintf("INSERT INTO %s VALUES (%d, 1, 'y');", q, 8000+cidx*10+i))
 			}
+		}
+		if cidx > 0 && strings.Contains(strings.Join(m.Stmts, " "), "CREATE TABLE `new0.csv`") && r.Bool(0.6) {
+			// a table created and committed earlier in this session is changed again
+			m.Stmts = append(m.Stmts, "INSERT INTO `new0.csv` VALUES (2, 'later');")
 		}
 		if r.Bool(0.3) {
 			m.Stmts = append(m.Stmts, fmt.Sprintf("CREATE TABLE `new%d.csv` (a, b);", cidx), fmt.Sprintf("INSERT INTO `new%d.csv` VALUES (1, 'created');", cidx))
@@ -270,6 +278,12 @@ func (c10) Eval(t *testing.T, c *Case, dec func(int) *Decider) *Outcome {
 	}
 	o.NonTrivial = len(co.images) > 0
 	o.Stats.Probes = addProbe(o.Stats.Probes, "crash-images", len(co.images))
+	if strings.Contains(sc.Procs[0].Program, "`sub/") {
+		o.Stats.probe("table-in-sub-directory")
+	}
+	if strings.Contains(sc.Procs[0].Program, "'later'") {
+		o.Stats.probe("created-table-changed-in-later-commit")
+	}
 	pre := map[string]bool{}
 	for _, f := range sc.Files {
 		pre[f.Name] = true
